@@ -734,3 +734,69 @@ Proof.
   intros W [[-> T]|[Ht Hp]]; [rewrite (path_match_w_enc v ps W T); apply predicate_match_t_normalise|].
   unfold path_match_w. rewrite Ht, Hp. reflexivity.
 Qed.
+
+(* ================================================================ as_f64 / to_f64: a parsed float is never a NaN *)
+From JB Require JsonGrammar JsonGrammarProofs DecimalBounds.
+
+Lemma digits_val_nonneg ds : Forall (fun d => is_digit d = true) ds -> forall acc, (0 <= acc)%Z -> (0 <= digits_val ds acc)%Z.
+Proof.
+  induction 1 as [|d ds Hd _ IH]; intros acc Ha; cbn [digits_val]; [exact Ha|].
+  apply IH. unfold is_digit in Hd. lia.
+Qed.
+
+(* the parser produces floats only through Decimal.round_dec (DecimalBounds.round_dec_not_nan) *)
+Theorem parsed_float_not_nan t b : parse_value t = Ok (VNum (NFloat b)) -> f_is_nan b = false.
+Proof.
+  intros Hp. apply JsonGrammarProofs.grammar_sound in Hp. unfold JsonGrammar.jtext in Hp.
+  inversion Hp as [w1 t0 v0 w2 _ Hv _ E1 E2]; subst. clear Hp.
+  inversion Hv as [| | |t1 n Hn| | | | | ]; subst. clear Hv.
+  inversion Hn as [neg ids tf fd te e Hi Hf He E1 E2]; subst. clear Hn.
+  assert (Dg : Forall (fun d => is_digit d = true) (ids ++ fd)).
+  { apply Forall_app. split.
+    - inversion Hi as [|d ds H1 H2 H3]; subst; [repeat constructor|constructor; assumption].
+    - inversion Hf as [|fd' H1 H2]; subst; [constructor|assumption]. }
+  assert (NN : f_is_nan (round_dec neg (digits_val (ids ++ fd) 0) (e - Z.of_nat (length fd))) = false)
+    by (apply DecimalBounds.round_dec_not_nan; apply digits_val_nonneg; [exact Dg|lia]).
+  unfold JsonGrammar.number_value, JsonGrammar.nearest_double in E2.
+  destruct tf, te, neg;
+    repeat match type of E2 with
+           | (if ?c then _ else _) = _ => destruct c
+           end; inversion E2; subst; exact NN.
+Qed.
+
+Lemma text_top_normalise_float t v : parse_value t = Ok v -> as_f64_t (normalise v) = as_f64_t v.
+Proof.
+  intros Hp. destruct v as [| | |[z|u|b]| |]; try reflexivity; cbn [normalise normalise_num as_f64_t].
+  - destruct (z =? 0)%Z eqn:E; [|reflexivity]. apply Z.eqb_eq in E. subst z. reflexivity.
+  - rewrite (parsed_float_not_nan t b Hp). reflexivity.
+Qed.
+
+(* as_f64 (is_f64 = `.is_some()`), to_f64: the same bits.  The answer is stated on the decoded document because an
+   ENCODING may have been made from a non-canonical NaN payload (which the decoder reads back as f64::NAN); for a
+   document that came from a text, normalise changes nothing here (no NaN; -0 and 0 both convert to +0.0). *)
+Theorem as_f64_forms t v : wfb v = true -> stands_for t v -> as_f64_w t = Ok (as_f64_t (normalise v)).
+Proof.
+  intros W [[-> T]|[Ht Hp]]; [apply as_f64_w_enc; assumption|].
+  unfold as_f64_w, as_f64_m. rewrite Ht, (doc_of_text t v Ht Hp). cbn [lift_opt].
+  rewrite (text_top_normalise_float t v Hp). reflexivity.
+Qed.
+Lemma to_f64_t_as v : to_f64_t v = match as_f64_t v with Some x => Some x | None =>
+  match v with VBool b => Some (if b then 4607182418800017408 else 0) | VStr s => parse_float_std s | _ => None end end.
+Proof. destruct v; reflexivity. Qed.
+Theorem to_f64_forms t v : wfb v = true -> stands_for t v -> to_f64_w t = of_cast (to_f64_t (normalise v)).
+Proof.
+  intros W [[-> T]|[Ht Hp]]; [apply to_f64_w_enc; assumption|].
+  unfold to_f64_w, to_f64_m, cast. rewrite Ht, (doc_of_text t v Ht Hp).
+  assert (E : to_f64_t (normalise v) = to_f64_t v).
+  { rewrite !to_f64_t_as, (text_top_normalise_float t v Hp). destruct v; reflexivity. }
+  rewrite E. reflexivity.
+Qed.
+(* with the same fact as_number is literally equal except for the integer -0 *)
+Theorem as_number_forms_text t v : is_jsonb t = false -> parse_value t = Ok v -> v <> VNum (NInt 0) ->
+  as_number_w t = Ok (as_number_t (normalise v)).
+Proof.
+  intros Ht Hp Hz. unfold as_number_w, as_number_m. rewrite Ht, (doc_of_text t v Ht Hp). cbn [lift_opt]. f_equal.
+  destruct v as [| | |[z|u|b]| |]; try reflexivity; cbn [normalise normalise_num as_number_t].
+  - destruct (z =? 0)%Z eqn:E; [|reflexivity]. apply Z.eqb_eq in E. subst z. exfalso. apply Hz. reflexivity.
+  - rewrite (parsed_float_not_nan t b Hp). reflexivity.
+Qed.
